@@ -154,6 +154,29 @@ class Ctx:
         if c.status in ("sat", "unknown"):
             self.nfail += 1
 
+    def _relevant_hyps(self, cond):
+        """cone of influence: assumptions sharing (transitively) a variable with the claim; dropping the
+        others only weakens the premise, so `unsat` stays sound"""
+        cache = self.__dict__.setdefault("_hyp_fv", {})
+        fvs = []
+        for h in self.hyps:
+            fv = cache.get(h.hid)
+            if fv is None:
+                fv = cache[h.hid] = frozenset(v.hid for v in S.free_vars([h]))
+            fvs.append(fv)
+        need = set(v.hid for v in S.free_vars([cond]))
+        chosen = [False] * len(self.hyps)
+        changed = True
+        while changed:
+            changed = False
+            for i, fv in enumerate(fvs):
+                if not chosen[i] and (not fv or fv & need):
+                    chosen[i] = True
+                    if not fv <= need:
+                        need |= fv
+                        changed = True
+        return [h for h, c in zip(self.hyps, chosen) if c]
+
     def too_many_failures(self):
         return self.nfail >= MAX_FAIL_PER_SCENARIO
 
@@ -175,7 +198,11 @@ class Ctx:
         if cond is S.TRUE:
             self._record(Claim(name, "unsat", trivial=True))
             return
-        r = smt.prove(self.hyps, cond, timeout_ms=self.timeout_ms, tag=name.split("[")[0], prefer=self.prefer)
+        hyps = self._relevant_hyps(cond)
+        r = smt.prove(hyps, cond, timeout_ms=self.timeout_ms, tag=name.split("[")[0], prefer=self.prefer)
+        if r.status == "sat" and len(hyps) < len(self.hyps):
+            # a model found under a subset of the assumptions must be confirmed under all of them
+            r = smt.prove(self.hyps, cond, timeout_ms=self.timeout_ms, tag=name.split("[")[0] + ":all-hyps", prefer=self.prefer)
         model = r.model
         if r.status == "sat" and robust is not None:
             for rb in (robust if isinstance(robust, list) else [robust]):
@@ -744,7 +771,16 @@ def close(ctx, name, impl, ref, tol):
         wc = float(sum(abs(c) for c in dd.values()) + abs(c0))
         key = name.split("[")[0]
         ctx.worst_case[key] = max(ctx.worst_case.get(key, 0.0), wc)
-    tol = S.lift(Fraction(tol).limit_denominator(10**30))
+    tolf = Fraction(tol).limit_denominator(10**30)
+    if all(a.op == "v" for a in dd) and dd:
+        # affine form with very long rational coefficients (exact DFT twiddles): give the solver a sound
+        # strengthening with coefficients rounded to 30 decimals: |sum c x + c0| <= |sum c~ x + c~0| + (n+1)*1e-30
+        q = 10**30
+        d2 = {a: Fraction(round(c * q), q) for a, c in dd.items()}
+        c2 = Fraction(round(c0 * q), q)
+        d = S.mk_lin({a: c for a, c in d2.items() if c != 0}, c2)
+        tolf = tolf - Fraction(len(dd) + 1, q)
+    tol = S.lift(tolf)
     ctx.claim(name, S.And(d <= tol, -d <= tol), robust=[S.Or(d >= k, -d >= k) for k in (S.lift(Fraction(1, 100)), S.lift(Fraction(1, 10**5)), 10 * tol)])
 
 
